@@ -1,5 +1,7 @@
 # coding: utf-8
 """C14 — reverse complement of a circular record stays circular and loses nothing."""
+EXTRA_OBLIGATION_FILES = ("Props/C14_src.v",)
+
 from harness import common, recutil
 from harness.props import C13
 
